@@ -64,7 +64,31 @@ def strip_comments_and_strings(src):
     return src
 
 
-def stage(dest, crate, bytes_model="len", cap=2, qcap=2, max_clients=None, replay_window=None, harness_dir=None, models=True):
+ENUM_DECL = re.compile(r"(?m)^(?P<ind>[ \t]*)(?P<vis>pub(?:\([^)]*\))?\s+)?enum\s+\w+")
+
+
+def add_enum_repr(src):
+    """Give every enum an explicit tag (#[repr(u8)]).  Layout only - not observable by safe code - but
+    niche-encoded discriminants are opaque to CBMC's constant propagation: every match arm gets
+    explored with garbage payloads (measured: OOM vs 67 s for one get_packets_to_send step)."""
+    out = []
+    pos = 0
+    n = 0
+    for m in ENUM_DECL.finditer(src):
+        # look at the attribute lines directly above
+        head = src[:m.start()]
+        prev = head.rstrip().splitlines()[-3:] if head.strip() else []
+        if any("#[repr" in ln for ln in prev):
+            continue
+        out.append(src[pos:m.start()])
+        out.append("%s#[repr(u8)] " % m.group("ind"))
+        pos = m.start() + len(m.group("ind"))
+        n += 1
+    out.append(src[pos:])
+    return "".join(out), n
+
+
+def stage(dest, crate, bytes_model="len", cap=2, qcap=2, max_clients=None, replay_window=None, harness_dir=None, models=True, slice_size=None):
     """crate: 'renet' | 'renetcode'.  Returns dict with info for the evidence file."""
     harness_dir = harness_dir or os.path.join(VERIF, "harness")
     src_crate = os.path.join(REPO, crate)
@@ -104,6 +128,8 @@ def stage(dest, crate, bytes_model="len", cap=2, qcap=2, max_clients=None, repla
         s = _read(p)
         info["files"] += 1
         s = s.replace("#[cfg(test)]", "#[cfg(all(test, not(kani)))]")
+        s, n_enum = add_enum_repr(s)
+        info["enums_tagged"] = info.get("enums_tagged", 0) + n_enum
         if models:
             try:
                 s, n = rewrite_uses(s, table)
@@ -127,6 +153,10 @@ def stage(dest, crate, bytes_model="len", cap=2, qcap=2, max_clients=None, repla
                 s, n = re.subn(r"const NETCODE_REPLAY_BUFFER_SIZE: usize = \d+;", "const NETCODE_REPLAY_BUFFER_SIZE: usize = %d;" % replay_window, s)
                 if n != 1:
                     raise StageError("cannot shrink NETCODE_REPLAY_BUFFER_SIZE")
+        if crate == "renet" and rel == "packet.rs" and slice_size is not None:
+            s, n = re.subn(r"pub const SLICE_SIZE: usize = \d+;", "pub const SLICE_SIZE: usize = %d;" % slice_size, s)
+            if n != 1:
+                raise StageError("cannot rewrite SLICE_SIZE")
         hsrc = os.path.join(harness_dir, crate, rel)
         if os.path.isfile(hsrc):
             hname = "verif_kani_" + rel.replace("/", "_")
@@ -157,7 +187,7 @@ def stage(dest, crate, bytes_model="len", cap=2, qcap=2, max_clients=None, repla
         parts.append(_read(support))
     _write(os.path.join(srcroot, "verif_models.rs"), "\n".join(parts))
     info.update({"bytes_model": bytes_model if crate == "renet" else None, "cap": cap, "qcap": qcap,
-                 "max_clients": max_clients, "replay_window": replay_window, "models": models})
+                 "max_clients": max_clients, "replay_window": replay_window, "models": models, "slice_size": slice_size})
     return info
 
 
